@@ -66,12 +66,7 @@ func mutate(rng *rand.Rand, s string) string {
 	return string(b[:i]) + "\\" + string(b[i:])
 }
 
-func runModel(r *hx.Result, cfg hx.Config, rng *rand.Rand) {
-	drv, err := model.Start("json")
-	if err != nil {
-		panic(err)
-	}
-	defer drv.Close()
+func runModel(r *hx.Result, cfg hx.Config, rng *rand.Rand, drv *model.Driver) {
 	n := 3000
 	if cfg.Tier == "thorough" {
 		n = 150000
